@@ -30,6 +30,7 @@ What is abstracted (inputs of the model): whether FindRoute / ValidateRequest su
 ValidateResponse as a function `respOK status headers body`, what the ErrFunc / ErrorEncoder callback
 writes (`errOps`, an arbitrary op list run against the raw writer; `defaultErrOps` is http.Error).
 -/
+import KinModel.Request
 namespace KinModel.Middleware
 
 abbrev Bytes := List Char
@@ -207,6 +208,20 @@ structure Outcome where
   logs : List LogKind
   deriving DecidableEq, Repr
 
+/-- The environment in which the verdict of request validation is not an opaque bit but the outcome of the
+model of `ValidateRequest` (KinModel/Request.lean, property C07) on the matched operation: security
+(operation-level list, else the document-level one), path-level and operation-level parameters of every
+location, request body, under the validator's `Options`. The middleware hands `&v.options` to ValidateRequest;
+ValidationHandler hands `Options{AuthenticationFunc}` (default flags). -/
+def envOf (routeFound : Bool) (o : Request.Opts) (op : Request.Op) (declared auth : String → Bool)
+    (respOK : Nat → Hdr → Bytes → Bool) : Env :=
+  { routeFound := routeFound, reqOK := (Request.validateRequest o op declared auth).isOk, respOK := respOK }
+
+/-- an operation that declares nothing itself (no own security list, no parameters, no body) in a document
+with the given top-level security requirements -/
+def bareOp (docSec : List Request.Requirement) : Request.Op :=
+  { opParams := [], pathParams := [], opSecurity := none, docSecurity := docSec, hasBody := false, bodyOK := true }
+
 /-- `status := wr.statusCode(); if status == 0 { status = http.StatusOK }` -/
 def validatedStatus (n : Nat) : Nat := if n == 0 then 200 else n
 
@@ -236,13 +251,19 @@ def middleware (cfg : Cfg) (env : Env) (ops : List Op) : Outcome :=
 /-! ### ValidationHandler -/
 
 /-- result of ValidationHandler.validateRequest -/
-inductive ReqFail | none | noPath | noMethod | invalid
+inductive ReqFail
+  | none | noPath | noMethod
+  | invalid      -- a parameter is missing, does not parse or violates its schema
+  | security     -- no security requirement satisfied (SecurityRequirementsError)
+  | bodySchema | bodyMissing | bodyType
   deriving DecidableEq, Repr
 
-/-- status ConvertErrors assigns (ValidationErrorEncoder): route errors 404 / 405, a missing required
-parameter 400 -/
+/-- status ConvertErrors assigns (ValidationErrorEncoder): route errors 404 / 405; parameter errors and a
+missing required body 400; body schema violation 422; unexpected body content type 415; a security error is
+not converted (no status: the wrapped encoder's own default, 500 for DefaultErrorEncoder) -/
 def ReqFail.convStatus : ReqFail → Nat
   | .none => 200 | .noPath => 404 | .noMethod => 405 | .invalid => 400
+  | .security => 500 | .bodySchema => 422 | .bodyMissing => 400 | .bodyType => 415
 
 structure VOutcome where
   handlerRan : Bool
